@@ -36,7 +36,7 @@ def as_bool(v):
         return v != 0.0
     if isinstance(v, str):
         return len(v) > 0
-    if isinstance(v, (tuple, list, dict)):
+    if isinstance(v, (tuple, list, dict, set, frozenset)):
         return len(v) > 0
     if isinstance(v, SList):
         return len(v.items) > 0
